@@ -17,6 +17,7 @@ ACT = dict(
 DROPPY = ["TagS", "TagP", "TagL"]
 PLAIN = ["u8", "u32", "usize", "Big", "Pad", "PadL"]
 ZST = ["()", "ZA"]
+ZDROP = ["ZD"]
 
 
 def tname(t):
@@ -401,7 +402,7 @@ def simple(name, body, note, unwind=8, **kw):
 def ptr_units():
     return [simple("u_ptr_%s" % tname(T), "ptr_unit::<%s>();" % T,
                    "KanalPtr encode/decode round trips (sender slot, receiver slot, inline owned, copy) for payload class %s, all bit patterns" % T)
-            for T in ZST + PLAIN + DROPPY]
+            for T in ZST + ZDROP + PLAIN + DROPPY]
 
 
 def poll_site(T, cap, send_side, site, peer, diff):
@@ -514,6 +515,13 @@ REFILL2 = [["try_send", "try_send", "asend_start0", rk, "try_recv", "try_recv", 
 ]
 
 
+def zd_handoffs():
+    """zero-sized droppable payload on the direct hand-off paths (receiver waits first) and the buffer path"""
+    return [blocked("ZD", 0, "RECV", ("PARK", 0, 0, 0), "SEND"), blocked("ZD", 0, "RECV_TO", ("WT_ENTRY", 0, 3, 1), "TRY_SEND_OPT"),
+            blocked("ZD", 1, "RECV", ("WAIT_SPIN", 0, 0, 0), "ASEND"), blocked("ZD", 0, "SEND", ("WAIT_ENTRY", 0, 0, 0), "RECV"),
+            async_waiter("ZD", 0, False, "TRY_SEND", 0), async_waiter("ZD", 1, True, "DRAIN", 1)]
+
+
 def pick(L, n, seed=0):
     """n evenly spread elements of L (deterministic)"""
     if len(L) <= n:
@@ -578,9 +586,9 @@ def instances(prop, tier):
         L += seqs(cur("basic", "fifo", "recvq", "three", "refill", "timedq"), DROPPY, [0, 1] if not full else [0, 1, 2, None])
         CL = [i for i in drop_matrix(DROPPY, [0], full) if "_st2_" in i.name] + [i for i in poll_splits(DROPPY, full) if "diffw" in i.name]
         if not full:
-            L = pick(L, 30) + pick(CL, 8, 3) + [i for i in CL if i.name.endswith("_n1")][:3]
+            L = pick(L, 28) + pick(CL, 8, 3) + [i for i in CL if i.name.endswith("_n1")][:3] + zd_handoffs()[:4]
         else:
-            L += CL
+            L += CL + zd_handoffs()
     elif prop == "C02":
         L += seqs(cur("three", "timedq", "refill"), DROPPY, [0, 1])
         L += seqs(REFILL2, DROPPY, [2])
@@ -625,7 +633,9 @@ def instances(prop, tier):
                    ["close_r", "try_send_opt_rt", "send_timeout", "send_opt_timeout", "asend_start0"]], DROPPY, [0, 1, 2])
         L += seqs(cur("termdrop", "timedq"), DROPPY, [0, 1])
         if not full:
-            L = pick(L, 38)
+            L = pick(L, 34) + zd_handoffs()[:4]
+        else:
+            L += zd_handoffs()
     elif prop == "C06":
         L += B(["RECV"], SEND_PEERS + KILL_FOR_RECEIVER, DROPPY, [0, 1])
         L += B(["SEND"], RECV_PEERS + KILL_FOR_SENDER, DROPPY, [0, 1])
